@@ -73,14 +73,26 @@ def execute_plan(prop, plan, seed=0, keep_log=False):
     return ctx, ('ok', None)
 
 
-def one_run(prop, tier, batch_seed, r, keep_log=False):
+def gen_plan(prop, tier, batch_seed, r):
     eng = engine_for(prop)
     seed = core.run_seed(batch_seed, prop, r)
     rng = core.py_rng('plan', seed)
     plan = eng.generate(prop, rng, tier)
     plan['seed'] = seed
-    ctx, outcome = execute_plan(prop, plan, seed, keep_log=keep_log)
+    return plan
+
+
+def one_run(prop, tier, batch_seed, r, keep_log=False):
+    plan = gen_plan(prop, tier, batch_seed, r)
+    ctx, outcome = execute_plan(prop, plan, plan['seed'], keep_log=keep_log)
     return plan, ctx, outcome
+
+
+# run indices this worker PROCESS has executed so far, in order (a worker
+# serves many chunks): the history a violation may depend on when the library
+# under test keeps state at module level
+_HISTORY = []
+HIST_CAP = 6000
 
 
 def _work(args):
@@ -120,7 +132,9 @@ def _work(args):
             if per_fp[val.fingerprint] <= 2:
                 agg['violations'].append({
                     'r': r, 'seed': plan['seed'], 'plan': plan,
-                    'fingerprint': val.fingerprint, 'message': val.message})
+                    'fingerprint': val.fingerprint, 'message': val.message,
+                    'history': list(_HISTORY[-HIST_CAP:])})
+        _HISTORY.append(r)
         if len(agg['samples']) < 1 and kind == 'ok':
             agg['samples'].append(plan)
     agg['viol_counts'] = dict(per_fp)
@@ -210,17 +224,22 @@ def known_entry(prop, fingerprint, known):
     return None
 
 
-def write_replay(prop, plan, fingerprint, message, seed, tier, orig_len=None):
+def write_replay(prop, plan, fingerprint, message, seed, tier, orig_len=None,
+                 history=None, suffix=''):
     d = os.path.join(os.environ.get('ODLSIM_REPLAY_DIR') or
                      os.path.join(VERIF, 'replays'), prop)
     os.makedirs(d, exist_ok=True)
     fh = hashlib.sha256(fingerprint.encode()).hexdigest()[:12]
-    path = os.path.join(d, fh + '.json')
+    path = os.path.join(d, fh + suffix + '.json')
+    rec = {'property': prop, 'fingerprint': fingerprint,
+           'message': message, 'seed': seed, 'tier': tier,
+           'plan': plan, 'original_ops': orig_len}
+    if history:
+        # plans of EARLIER runs of the same process, executed first (their
+        # outcomes do not matter): what the failing run found in the process
+        rec['history'] = history
     with open(path, 'w') as f:
-        json.dump({'property': prop, 'fingerprint': fingerprint,
-                   'message': message, 'seed': seed, 'tier': tier,
-                   'plan': plan, 'original_ops': orig_len}, f, indent=1,
-                  sort_keys=True)
+        json.dump(rec, f, indent=1, sort_keys=True, default=str)
     return path
 
 
@@ -231,6 +250,14 @@ def replay(path, quiet=False):
     with open(path) as f:
         rec = json.load(f)
     prop = rec['property']
+    for hp in rec.get('history') or []:
+        try:
+            execute_plan(prop, hp, hp.get('seed', 0))
+        except Exception:
+            pass
+    if rec.get('history') and not quiet:
+        print('REPLAY executed {} earlier run(s) of the process first'.format(
+            len(rec['history'])))
     ctx, (kind, val) = execute_plan(prop, rec['plan'], rec.get('seed', 0),
                                     keep_log=True)
     if kind == 'violation':
@@ -260,6 +287,62 @@ def _replay_fresh(prop, path):
     out = p.stdout.decode(errors='replace')
     ok = p.returncode == EXIT_VIOLATION and 'same=True' in out
     return ok, out
+
+
+def history_search(prop, tier, batch_seed, v, budget_s=300.0):
+    """A violation that does not replay on its own may depend on what earlier
+    runs left behind in the worker process (module-level state of the library
+    under test).  Re-execute, in fresh processes, the runs that worker had
+    executed before, followed by the failing plan; if that reproduces, shrink
+    the list of predecessors with ddmin.  Returns (path, n_predecessors,
+    n_tests) or None."""
+    hist = list(v.get('history') or [])
+    if not hist:
+        return None
+    t0 = time.time()
+    tests = [0]
+
+    def test(rs):
+        tests[0] += 1
+        plans = [gen_plan(prop, tier, batch_seed, r) for r in rs]
+        path = write_replay(prop, v['plan'], v['fingerprint'], v['message'],
+                            v['seed'], tier, history=plans, suffix='.hist')
+        ok, _ = _replay_fresh(prop, path)
+        return ok
+
+    if not test(hist):
+        return None
+    cur, n = hist, 2
+    while len(cur) >= 2 and time.time() - t0 < budget_s:
+        size = -(-len(cur) // n)
+        subsets = [cur[i:i + size] for i in range(0, len(cur), size)]
+        reduced = False
+        for sub in subsets:
+            if time.time() - t0 > budget_s:
+                break
+            if test(sub):
+                cur, n, reduced = sub, 2, True
+                break
+        if not reduced:
+            for i in range(len(subsets)):
+                if time.time() - t0 > budget_s or len(subsets) <= 2:
+                    break
+                comp = [r for j, sub in enumerate(subsets) if j != i
+                        for r in sub]
+                if test(comp):
+                    cur, n, reduced = comp, max(n - 1, 2), True
+                    break
+        if not reduced:
+            if n >= len(cur):
+                break
+            n = min(len(cur), 2 * n)
+    plans = [gen_plan(prop, tier, batch_seed, r) for r in cur]
+    path = write_replay(prop, v['plan'], v['fingerprint'], v['message'],
+                        v['seed'], tier, history=plans, suffix='.hist')
+    ok, _ = _replay_fresh(prop, path)
+    if not ok:
+        return None
+    return path, len(cur), tests[0]
 
 
 # --------------------------------------------------------------------------
@@ -336,6 +419,7 @@ def run_batch(prop, tier='quick', batch_seed=0, budget_s=None, nruns=None,
     exit_code = EXIT_OK
     replay_paths = []
     max_report = int(os.environ.get('ODLSIM_MAX_REPORT', '6'))
+    hist_tried = False
     for v in new_viol[:max_report]:
         orig_len = len(v['plan'].get('ops', []))
         try:
@@ -365,6 +449,29 @@ def run_batch(prop, tier='quick', batch_seed=0, budget_s=None, nruns=None,
                 replay_paths.append(path)
                 exit_code = EXIT_VIOLATION
             else:
+                found = None
+                if not hist_tried:
+                    # once per batch: does it reproduce together with the
+                    # runs the same worker process had executed before?
+                    hist_tried = True
+                    try:
+                        found = history_search(prop, tier, batch_seed, v)
+                    except Exception:
+                        found = None
+                if found:
+                    hpath, npred, ntests = found
+                    print('VIOLATION property={} replay={}'.format(prop, hpath))
+                    print('  fingerprint: ' + v['fingerprint'])
+                    print('  ' + v['message'][:400])
+                    print('  (seed {}; does not fail on its own: needs {} '
+                          'earlier run(s) of the same process, shrunk from {} '
+                          'with {} fresh-process re-executions -- the library '
+                          'keeps state between independent histories)'.format(
+                              v['seed'], npred, len(v.get('history') or []),
+                              ntests))
+                    replay_paths.append(hpath)
+                    exit_code = EXIT_VIOLATION
+                    continue
                 print('HARNESS-ERROR: violation {} did not reproduce in a '
                       'fresh process:\n{}'.format(v['fingerprint'], out2[-800:]))
                 if exit_code == EXIT_OK:
